@@ -122,13 +122,28 @@ def outcome_rules(run, F, E):
                detail=None if ok else {k: sorted(map(repr, v)) for k, v in cleared.items()}, key='PlanT::clear leaves tasks or status bits behind')
     for fn in F.find('PlanT', 'clearTasks'):
         c = cfgmod.cfg_of(fn)
-        rm = c.events(('call',), lambda n: n.e.get('m') == 'remove')
-        ws = [ir.pp(ir.strip(n.e['l'])) for n in c.events(('write',)) if n.e.get('k') == 'asg' and ir.const_val(n.e['r']) == 255]
-        ok = len(rm) == 1 and c.in_loop(rm[0]) and sorted(w for w in ws if w.startswith('_bounds')) == ['_bounds.first', '_bounds.last']
-        # the successor is read before the task is removed
+        # by resolved callee, write paths and dominance -- not by the names of locals or by how the bounds are reached
+        rm = [n for n in c.events(('call',)) if n.e.get('fn') is not None and F.fn(n.e['fn']) is not None and F.fn(n.e['fn']).tkey == 'ffsm2::detail::PlanT'
+              and F.fn(n.e['fn']).m == 'remove']
+        reset = set()
+        for n in c.events(('write',)):
+            if n.e.get('k') == 'asg' and ir.const_val(n.e['r']) == 255 and not c.in_loop(n):
+                for p in E.lv(n.e['l'], fn):
+                    if len(p) >= 2 and p[-1] in ('first', 'last') and p[-2] in ('tasksBounds', '_bounds'):
+                        reset.add(p[-1])
+        ok = len(rm) == 1 and bool(c.in_loop(rm[0])) and reset == {'first', 'last'}
+        # the successor is read before the task is removed: the value the walk continues with after the removal comes from a local whose
+        # declaration dominates the removal and reads a task link's `next`
         if ok:
-            nxt = c.events(('decl',), lambda n: n.e.get('n') == 'next')
-            ok = len(nxt) == 1 and c.dominates(nxt[0], rm[0]) and 'link.next' in ir.pp(ir.strip(nxt[0].e['init']))
+            ok = False
+            for n in c.events(('write',)):
+                if n.e.get('k') == 'asg' and c.in_loop(n) and c.dominates(rm[0], n):
+                    src = ir.strip(n.e['r'])
+                    if src['k'] == 'var':
+                        for d in c.events(('decl',)):
+                            if d.e.get('id') == src.get('id') and c.dominates(d, rm[0]) and d.e.get('init') is not None and \
+                                    any(x['k'] == 'mem' and x.get('f') == 'next' for x in ir.walk(d.e['init'])):
+                                ok = True
         run.ob('C09.a', 'PlanT::clearTasks removes every linked task (successor read before removal) and resets the bounds', ok, where=fn.pat,
                key='PlanT::clearTasks does not empty the list')
 
